@@ -8,14 +8,14 @@ RULE = ('random histories of the grammar setters*;bake+;(init+;exchange(recalcul
         'order/resolution/duration, permuted setters) on real objects and on the Lean life-cycle model, each compared with '
         'the canonical fresh history of its final configuration; caller-owned inputs hashed before/after each call; '
         'non-trivial = history with >= 2 cycles or a repeated stage')
-RULE = RULE + '; overriding setters, two installation styles of one configuration, re-sourcing from sources in the floor plane / outside the room'
+RULE = RULE + '; overriding setters, two installation styles of one configuration, re-sourcing from sources in the floor plane / outside the room; setters after a bake followed by another bake (random, and as fixed probes: bake before any material, materials replaced by ones on other direction sets, replaced after a complete run)'
 ASSUMPTIONS = ['equal terms denote equal arrays (kernels are deterministic pure functions; numerical correspondence)',
                'parameter-mutation scan is syntactic (generated list of in-place sites whose base is a parameter)']
 EXPLANATION = 'config_determines: the whole state after any history of the grammar equals that of the fresh canonical history; stages are idempotent; setters commute up to private numbering; no in-place site targets a parameter.'
 
 
 def check_history_vs_fresh(ctx, pool, td, ops=None):
-    ops = histories.gen_history(ctx.rng, pool, with_restore=False) if ops is None else ops
+    ops = histories.gen_history(ctx.rng, pool, with_restore=False, late_setters=True) if ops is None else ops
     log = []
     r, snaps = histories.run_real(ops, pool, td, log)
     can = histories.canonical(ops)
@@ -124,6 +124,14 @@ def _run(ctx):
             # the attenuation is changed on a used object and every stage is run again for the SAME source
             check_history_vs_fresh(ctx, pool, td, ops=[('S', list(range(histories.W)), 'm2'), ('A', 'a0'), ('B',), ('I', 's1'), ('X', 'p1', 1),
                                                         ('A', 'a1'), ('B',), ('I', 's1'), ('X', 'p1', 1)])
+            # baking again after the materials were set for the first time / replaced (other direction sets in the
+            # multi-direction pool): everything baked must follow the materials in force
+            W_ = list(range(histories.W))
+            for probe in ([('B',), ('S', W_, 'm2'), ('A', 'a0'), ('B',), ('I', 's1'), ('X', 'p1', 1)],
+                          [('S', W_, 'm0'), ('B',), ('S', W_, 'm2'), ('B',), ('I', 's0'), ('X', 'p0', 1)],
+                          [('S', W_, 'm1'), ('A', 'a1'), ('B',), ('I', 's0'), ('X', 'p0', 1), ('S', W_, 'm3'), ('B',), ('I', 's0'), ('X', 'p0', 1)]):
+                ctx.count('probe.rebake_after_materials')
+                check_history_vs_fresh(ctx, pool, td, ops=probe)
             check_setter_permutation(ctx, pool, td)
             check_override_equivalence(ctx, pool, td)
             if pi == 0 or ctx.tier != 'quick':
@@ -152,8 +160,18 @@ def _oracle(ctx, budget_s=60):
 
 
 def replay(ctx, rp):
-    rng = np.random.Generator(np.random.PCG64(rp.get('seed', 0)))
+    inp = rp['input']
     with tempfile.TemporaryDirectory(dir='/var/tmp') as td:
+        if isinstance(inp, dict) and 'pool' in inp and 'pool_seed' in inp['pool']:
+            pool = histories.Pool.from_description(inp['pool'])
+            if 'ops' in inp:
+                check_history_vs_fresh(ctx, pool, td, ops=histories.parse_ops(inp['ops']))
+            else:
+                check_setter_permutation(ctx, pool, td)
+                check_override_equivalence(ctx, pool, td)
+                check_idempotent(ctx, pool, td)
+            return not ctx.violations
+        rng = np.random.Generator(np.random.PCG64(rp.get('seed', 0)))
         pool = histories.Pool(rng)
         check_history_vs_fresh(ctx, pool, td)
         check_setter_permutation(ctx, pool, td)
